@@ -206,7 +206,7 @@ fn node(kind: &str, s: &Span, ch: Vec<J>) -> J {
   json!({"k":kind,"s":sp(s),"ch":ch})
 }
 fn ident_node(i: &Identifier) -> J {
-  json!({"k":"ident","s":sp(&i.span),"ch":[],"txt":ident_name(i)})
+  json!({"k":"ident","s":sp(&i.span),"ch":[],"name":ident_name(i).chars().map(|c| c as u32).collect::<Vec<_>>()})
 }
 fn gargs_node(g: &Option<GenericArgs>) -> Vec<J> {
   match g {
